@@ -108,5 +108,6 @@ old.update({p: {"repo_head": head, **r} for p, r in res.items()})
 path.write_text(json.dumps(old, indent=1, sort_keys=True) + "\n")
 missed = [f"{p}/{k}" for p, r in res.items() for k, v in r.items() if k != "clean" and v.get("status") == "MISSED"]
 dirty = [p for p, r in res.items() if r.get("clean", {}).get("exit") != 0]
-print("MISSED:", missed or "none", "| clean-tree failures:", dirty or "none")
-sys.exit(1 if missed or dirty else 0)
+stale = [f"{p}/{k}" for p, r in res.items() for k, v in r.items() if k != "clean" and v.get("status") == "stale"]
+print("MISSED:", missed or "none", "| clean-tree failures:", dirty or "none", "| STALE (patch no longer applies, re-base it):", stale or "none")
+sys.exit(1 if missed or dirty or stale else 0)
